@@ -108,6 +108,346 @@ def classify(user, q, out, base_names=()):
     return None
 
 
+# ------------------------------------------- the descriptor layer: a reference reading of @counter-style rules
+# CSS Counter Styles 3, section 3, written from the grammar of each descriptor (tokens by tinycss2, which is not
+# the code under test).  The streams that go through weasyprint.CSS give the Coq judge THIS reading of the sheet:
+# the printed numbers are compared with the specification applied to what the author wrote, not to what the
+# validators of weasyprint/css/validation/descriptors.py made of it.
+#
+#   system:           cyclic | numeric | alphabetic | symbolic | additive | [fixed <integer>?] | [extends <name>]
+#   negative:         <symbol> <symbol>?
+#   prefix, suffix:   <symbol>
+#   range:            [ [ <integer> | infinite ]{2} ]# | auto          (lower bound > upper bound: invalid)
+#   pad:              <integer [0,inf]> && <symbol>
+#   fallback:         <counter-style-name>
+#   symbols:          <symbol>+
+#   additive-symbols: [ <integer [0,inf]> && <symbol> ]#              (weights strictly descending, else invalid)
+#   <symbol> = <string> | <image> | <custom-ident>      <counter-style-name> = <custom-ident> other than none
+# An invalid declaration (or one with !important) is ignored; names and keywords are ASCII case-insensitive; a rule
+# whose system lacks its symbols (1 for cyclic/fixed/symbolic, 2 for alphabetic/numeric, 1 tuple for additive) or an
+# extends rule with symbols / additive-symbols defines no counter style.
+
+FIELDS = ('system', 'negative', 'prefix', 'suffix', 'range', 'pad', 'fallback', 'symbols', 'additive_symbols')
+CSS_WIDE = ('inherit', 'initial', 'unset', 'revert', 'revert-layer', 'default')
+# deviations of the validators from the grammar that are (or were) open findings, reproducible in the reference:
+# a sheet whose reading differs from the implementation's is attributed to one of them only if switching that ONE
+# quirk on makes the two readings equal
+# (F250, F251, F254, F255, F256 are repaired in /repo: their switches stay in the reference reader, unused)
+QUIRKS = ('additive-needs-two-tuples',)
+
+
+def _r_symbol(t, quirks=()):
+    if t.type == 'string':
+        return ['string', t.value]
+    if t.type == 'ident' and t.lower_value not in CSS_WIDE:
+        return ['string', t.value]
+    if t.type == 'url' or (t.type == 'function' and t.lower_name == 'url'):
+        return ['url', '']
+    return None
+
+
+def _r_name(t, quirks=()):
+    if t.type == 'ident' and t.lower_value not in CSS_WIDE and (t.lower_value != 'none'):
+        return t.value
+    return None
+
+
+def _r_integer(t):
+    return t.int_value if t.type == 'number' and t.is_integer else None
+
+
+def _r_system(toks, quirks):
+    if not toks or toks[0].type != 'ident':
+        return None
+    kw = toks[0].lower_value
+    if kw in ('cyclic', 'numeric', 'alphabetic', 'symbolic', 'additive'):
+        return [False, kw, None] if len(toks) == 1 else None
+    if kw == 'fixed':
+        if len(toks) == 1:
+            return [False, 'fixed', 1]
+        n = _r_integer(toks[1]) if len(toks) == 2 else None
+        return None if n is None else [False, 'fixed', n]
+    if kw == 'extends' and len(toks) == 2:
+        n = _r_name(toks[1])
+        return None if n is None else [True, n, None]
+    return None
+
+
+def _r_negative(toks, quirks):
+    if 'negative-skips-non-symbols' in quirks and len(toks) <= 2:
+        vals = [v for v in (_r_symbol(t, quirks) for t in toks) if v is not None]
+        return None if not vals else vals + [['string', '']] * (2 - len(vals))
+    if len(toks) not in (1, 2):
+        return None
+    vals = [_r_symbol(t, quirks) for t in toks]
+    if None in vals:
+        return None
+    return vals + [['string', '']] * (2 - len(vals))
+
+
+def _r_one_symbol(toks, quirks):
+    return _r_symbol(toks[0], quirks) if len(toks) == 1 else None
+
+
+def _split_commas(toks):
+    parts, cur = [], []
+    for t in toks:
+        if t.type == 'literal' and t.value == ',':
+            parts.append(cur)
+            cur = []
+        else:
+            cur.append(t)
+    return parts + [cur]
+
+
+def _r_range(toks, quirks):
+    if len(toks) == 1 and toks[0].type == 'ident' and toks[0].lower_value == 'auto':
+        return 'auto'
+    out = []
+    for part in _split_commas(toks):
+        if 'range-auto-in-list' in quirks and len(part) == 1 and part[0].type == 'ident' and part[0].lower_value == 'auto':
+            out.append('auto')
+            continue
+        if len(part) != 2:
+            return None
+        b = []
+        for i, t in enumerate(part):
+            inf = t.type == 'ident' and (t.value if 'infinite-case-sensitive' in quirks else t.lower_value) == 'infinite'
+            if inf:
+                b.append('inf' if i else '-inf')
+            elif _r_integer(t) is not None:
+                b.append(_r_integer(t))
+            else:
+                return None
+        if b[0] != '-inf' and b[1] != 'inf' and b[0] > b[1]:
+            return None
+        out.append(b)
+    return out
+
+
+def _r_int_and_symbol(toks, quirks):
+    if len(toks) != 2:
+        return None
+    for a, b in ((toks[0], toks[1]), (toks[1], toks[0])):
+        n, sy = _r_integer(a), _r_symbol(b, quirks)
+        if n is not None and n >= 0 and sy is not None:
+            return [n, sy]
+    return None
+
+
+def _r_fallback(toks, quirks):
+    return _r_name(toks[0]) if len(toks) == 1 else None
+
+
+def _r_symbols(toks, quirks):
+    if not toks:
+        return [] if 'empty-symbols-accepted' in quirks else None
+    vals = [_r_symbol(t, quirks) for t in toks]
+    return None if None in vals else vals
+
+
+def _r_additive(toks, quirks):
+    out = []
+    for part in _split_commas(toks):
+        v = _r_int_and_symbol(part, quirks)
+        if v is None or (out and out[-1][0] <= v[0]):
+            return None
+        out.append(v)
+    return out
+
+
+REF_DESCRIPTORS = {'system': _r_system, 'negative': _r_negative, 'prefix': _r_one_symbol, 'suffix': _r_one_symbol,
+                   'range': _r_range, 'pad': _r_int_and_symbol, 'fallback': _r_fallback, 'symbols': _r_symbols,
+                   'additive-symbols': _r_additive}
+
+
+def ref_defines(e, quirks=()):
+    system = e['system'] or [False, 'symbolic', None]
+    if system[0]:
+        return e['symbols'] is None and e['additive_symbols'] is None
+    if system[1] == 'additive':
+        return len(e['additive_symbols'] or []) >= (2 if 'additive-needs-two-tuples' in quirks else 1)
+    return len(e['symbols'] or []) >= (2 if system[1] in ('alphabetic', 'numeric') else 1)
+
+
+def ref_sheet(css, quirks=()):
+    """the counter styles a sheet defines, [[name, entry]] in the shape of impl_c15.dump_style (the predefined
+    styles are present: decimal and disc cannot be redefined)"""
+    import tinycss2
+    out = {}
+    for rule in tinycss2.parse_stylesheet(css, skip_comments=True, skip_whitespace=True):
+        if rule.type != 'at-rule' or rule.lower_at_keyword != 'counter-style' or rule.content is None:
+            continue
+        prelude = [t for t in rule.prelude if t.type not in ('whitespace', 'comment')]
+        if len(prelude) != 1 or prelude[0].type != 'ident':
+            continue
+        name = prelude[0].value
+        if prelude[0].lower_value in ('none', 'decimal', 'disc') + CSS_WIDE:
+            continue
+        e = dict.fromkeys(FIELDS)
+        for d in tinycss2.parse_blocks_contents(rule.content):
+            if d.type != 'declaration' or d.important:
+                continue
+            dname = d.name if 'descriptor-name-case-sensitive' in quirks else d.lower_name
+            f = REF_DESCRIPTORS.get(dname)
+            if f is None:
+                continue
+            v = f([t for t in d.value if t.type not in ('whitespace', 'comment')], quirks)
+            if v is not None:
+                e[dname.replace('-', '_')] = v
+        if ref_defines(e, quirks):
+            out.pop(name, None)
+            out[name] = e
+    return [[k, v] for k, v in out.items()]
+
+
+def _norm_entry(e):
+    e = dict(e)
+    if isinstance(e.get('range'), list) and 'auto' in e['range'] and len(e['range']) == 1:
+        e['range'] = 'auto'                     # the validator stores range: auto as ('auto',)
+    return json.loads(json.dumps(e))
+
+
+def layer_diff(intended, impl_user):
+    """[(style name, descriptor | None for the whole rule, reference reading, implementation's reading)]"""
+    a = {k: _norm_entry(v) for k, v in intended}
+    b = {k: _norm_entry(v) for k, v in impl_user}
+    out = []
+    for k in sorted(set(a) | set(b)):
+        if k not in a or k not in b:
+            out.append([k, None, a.get(k), b.get(k)])
+            continue
+        for f in FIELDS:
+            if a[k][f] != b[k][f]:
+                out.append([k, f, a[k][f], b[k][f]])
+    return out
+
+
+def layer_signature(css, impl_user):
+    """the known deviations of the validators that together make the reference read the sheet as the implementation
+    did (a minimal set: none of them can be left out), as signatures; None when even all of them do not"""
+    need = list(QUIRKS)
+    if layer_diff(ref_sheet(css, need), impl_user):
+        return None
+    for qk in QUIRKS:
+        rest = [x for x in need if x != qk]
+        if not layer_diff(ref_sheet(css, rest), impl_user):
+            need = rest
+    return ['c15:descriptor-layer:' + qk for qk in need]
+
+
+# ------------------------------------------------------------------------- spellings the grammar allows
+IDENT_RE = re.compile(r'-?[A-Za-z_¡-￿][A-Za-z0-9_¡-￿-]*\Z')
+
+
+def sp_string(rng, s):
+    quote = '"' if rng.random() < 0.75 else "'"
+    out = ''
+    for ch in s:
+        if ch == '\\' or ch == quote:
+            out += '\\' + ch
+        elif rng.random() < 0.05:
+            out += '\\%x ' % ord(ch)            # hexadecimal escape, ended by one space
+        else:
+            out += ch
+    return quote + out + quote
+
+
+def sp_symbol(rng, s):
+    """<symbol>: a string, or an identifier when the text is one"""
+    if IDENT_RE.match(s) and s.lower() not in CSS_WIDE + ('none',) and rng.random() < 0.3:
+        return s
+    return sp_string(rng, s)
+
+
+def sp_int(rng, n):
+    r = rng.random()
+    if n >= 0 and r < 0.08:
+        return '+%d' % n
+    if n >= 0 and r < 0.12:
+        return '0%d' % n
+    return '%d' % n
+
+
+def sp_kw(rng, kw):
+    r = rng.random()
+    return kw.upper() if r < 0.02 else kw.capitalize() if r < 0.04 else kw
+
+
+def sp_join(rng, comps):
+    """components separated by white space, comments, or nothing where a quote delimits"""
+    out = comps[0] if comps else ''
+    for c in comps[1:]:
+        r = rng.random()
+        quote = out[-1:] in '"\'' or c[:1] in '"\''
+        if r < 0.7:
+            sep = ' '
+        elif r < 0.78:
+            sep = '  '
+        elif r < 0.84:
+            sep = '\n'
+        elif r < 0.88:
+            sep = '\t'
+        elif r < 0.93:
+            sep = ' /**/ '
+        elif r < 0.96:
+            sep = '/* c */'
+        else:
+            sep = '' if quote and out[-1:] != '\\' else ' '
+        out += sep + c
+    return out
+
+
+def sp_pair(rng, n, s):
+    """<integer> && <symbol>: both orders"""
+    comps = [sp_int(rng, n), sp_symbol(rng, s)]
+    if rng.random() < 0.5:
+        comps.reverse()
+    return comps
+
+
+def sp_negative(rng, pre, suf):
+    if suf == '' and rng.random() < 0.6:
+        return [sp_symbol(rng, pre)]
+    return [sp_symbol(rng, pre), sp_symbol(rng, suf)]
+
+
+def sp_bound(rng, b):
+    return sp_kw(rng, 'infinite') if b == 'infinite' else sp_int(rng, int(b)) if int(b) >= 0 and rng.random() < 0.3 else str(b)
+
+
+JUNK = ['7', '1.5', '-2', '2px', '50%', '"j"', 'junk', ',', '1e1', '3.0', '#x', 'f(1)']
+
+
+def sp_decl(rng, dname, groups, odd=False):
+    """one declaration from its comma-separated groups of components; in odd cases sometimes a token is dropped,
+    doubled, replaced or inserted (the reference reads the text, valid or not), or !important is appended"""
+    groups = [list(g) for g in groups]
+    tail = ''
+    if odd and rng.random() < 0.12:
+        r = rng.random()
+        g = rng.choice(groups)
+        if r < 0.2 and g:
+            del g[rng.randrange(len(g))]
+        elif r < 0.35 and g:
+            g.insert(rng.randrange(len(g) + 1), rng.choice(g))
+        elif r < 0.6 and g:
+            g[rng.randrange(len(g))] = rng.choice(JUNK)
+        elif r < 0.8:
+            g.insert(rng.randrange(len(g) + 1), rng.choice(JUNK))
+        elif r < 0.88:
+            groups = [[]]
+        elif r < 0.94:
+            groups.append(list(rng.choice(groups)))
+        else:
+            tail = rng.choice([' !important', '!important', ' ! IMPORTANT'])
+    r = rng.random()
+    name = dname.upper() if r < 0.006 else dname.capitalize() if r < 0.012 else dname
+    comma = rng.choice([', ', ', ', ',', ' , ', ',\n'])
+    colon = rng.choice([': ', ': ', ': ', ':', ' : '])
+    return name + colon + comma.join(sp_join(rng, g) for g in groups) + tail
+
+
 # ----------------------------------------------------------------------------------- generators
 
 SYMS = ['a', 'b', 'c', '*', 'ab', '', '0', '1', 'é', '〇', 'xyz', '-', '\U0001d7d8']
@@ -123,7 +463,8 @@ def q(s):
 
 
 def gen_rule(rng, name, all_names, odd):
-    """text of one @counter-style rule; mostly valid, every descriptor sometimes odd."""
+    """text of one @counter-style rule; mostly valid, every descriptor sometimes odd; every descriptor in the
+    spellings its grammar allows (sp_* above)"""
     ds = []
     r = rng.random()
     system = None
@@ -131,24 +472,23 @@ def gen_rule(rng, name, all_names, odd):
         system = None
     elif r < 0.30:
         tgt = rng.choice(all_names + UA_NAMES + ['nosuch'] if rng.random() < 0.8 else [name])
-        system = 'extends ' + tgt
+        system = [sp_kw(rng, 'extends'), tgt]
     else:
-        system = rng.choice(SYSTEMS)
-        if system == 'fixed' and rng.random() < 0.6:
-            system = 'fixed %d' % rng.choice([-3, 0, 1, 2, 5, 10])
+        system = [rng.choice(SYSTEMS)]
+        if system[0] == 'fixed' and rng.random() < 0.6:
+            system.append(sp_int(rng, rng.choice([-3, 0, 1, 2, 5, 10])))
+        system[0] = sp_kw(rng, system[0])
     if system:
-        ds.append('system: ' + system)
-    kind = (system or 'symbolic').split()[0]
+        ds.append(sp_decl(rng, 'system', [system], odd))
+    kind = (system or ['symbolic'])[0].lower()
     if kind == 'additive':
         pool = [(1000, 'M'), (100, 'C'), (50, 'L'), (10, 'X'), (9, 'IX'), (7, 'S'), (5, 'V'), (4, 'IV'), (3, 'T'),
                 (2, 'II'), (1, 'I'), (0, 'Z')]
-        k = rng.choice([2, 2, 3, 4, 6, 12])
+        k = rng.choice([1, 2, 2, 3, 4, 6, 12])
         sel = sorted(rng.sample(pool, k), reverse=True)
         if odd and rng.random() < 0.05:
             sel = sel[::-1]
-        if rng.random() < 0.5 and (1, 'I') not in sel and k < 12:
-            pass
-        ds.append('additive-symbols: ' + ', '.join('%d %s' % (w, q(s)) for w, s in sel))
+        ds.append(sp_decl(rng, 'additive-symbols', [sp_pair(rng, w, s) for w, s in sel], odd))
     elif kind != 'extends' or (odd and rng.random() < 0.25):
         lo = {'alphabetic': 2, 'numeric': 2}.get(kind, 1)
         n = rng.choice([lo, lo, lo + 1, 3, 5, 10])
@@ -158,7 +498,7 @@ def gen_rule(rng, name, all_names, odd):
             symbols = [str(i) for i in range(n)]
         else:
             symbols = [rng.choice(SYMS) for _ in range(n)]
-        ds.append('symbols: ' + ' '.join(q(s) for s in symbols))
+        ds.append(sp_decl(rng, 'symbols', [[sp_symbol(rng, s) for s in symbols]], odd))
     if rng.random() < 0.45:
         def b():
             return rng.choice(['infinite', '-60', '-5', '-1', '0', '1', '2', '3', '7', '12', '40', '100', '1000', '4999'])
@@ -166,30 +506,38 @@ def gen_rule(rng, name, all_names, odd):
             for _ in range(20):
                 lo, hi = b(), b()
                 if lo == 'infinite' or hi == 'infinite' or int(lo) <= int(hi):
-                    return '%s %s' % (lo, hi)
-            return '1 5'
+                    return [sp_bound(rng, lo), sp_bound(rng, hi)]
+            return ['1', '5']
         r = rng.random()
         if r < 0.12:
-            ds.append('range: auto')
+            groups = [[sp_kw(rng, 'auto')]]
         elif odd and r < 0.16:
-            ds.append('range: %s, auto' % one())
+            groups = [one(), ['auto']]
         elif r < 0.7:
-            ds.append('range: ' + one())
+            groups = [one()]
+        elif r < 0.93:
+            groups = [one(), one()]
         else:
-            ds.append('range: %s, %s' % (one(), one()))
+            groups = [one(), one(), one()]
+        ds.append(sp_decl(rng, 'range', groups, odd))
     if rng.random() < 0.35:
-        ds.append('negative: ' + rng.choice(['"-"', '"(" ")"', '"(" ")"', '"neg"', '"" ""', '"−"', 'minus', '"<" ""',
-                                             '"" ")"', '"-" " cr"', '"((" "))"', '"m " " é"']))
+        pre, suf = rng.choice([('-', ''), ('(', ')'), ('(', ')'), ('neg', ''), ('', ''), ('\u2212', ''), ('minus', ''),
+                               ('<', ''), ('', ')'), ('-', ' cr'), ('((', '))'), ('m ', ' \u00e9'), ('neg', 'cr')])
+        ds.append(sp_decl(rng, 'negative', [sp_negative(rng, pre, suf)], odd))
     if rng.random() < 0.35:
-        ds.append('pad: %d %s' % (rng.choice([0, 1, 2, 3, 5, 8]), q(rng.choice(['0', ' ', 'xy', '', '*']))))
+        ds.append(sp_decl(rng, 'pad', [sp_pair(rng, rng.choice([0, 1, 2, 3, 5, 8]), rng.choice(['0', ' ', 'xy', '', '*', 'o']))],
+                          odd))
     if rng.random() < 0.25:
-        ds.append('prefix: ' + q(rng.choice(['[', '', '(', 'No.'])))
+        ds.append(sp_decl(rng, 'prefix', [[sp_symbol(rng, rng.choice(['[', '', '(', 'No.', 'no']))]], odd))
     if rng.random() < 0.3:
-        ds.append('suffix: ' + q(rng.choice([']', '', ') ', ': '])))
+        ds.append(sp_decl(rng, 'suffix', [[sp_symbol(rng, rng.choice([']', '', ') ', ': ', 'th']))]], odd))
     if rng.random() < 0.5:
-        ds.append('fallback: ' + rng.choice(all_names + all_names + UA_NAMES + ['nosuch', 'none']))
+        ds.append(sp_decl(rng, 'fallback', [[rng.choice(all_names + all_names + UA_NAMES + ['nosuch', 'none'])]], odd))
+    if odd and rng.random() < 0.1:                     # a descriptor given twice: the last valid one counts
+        ds.append(sp_decl(rng, 'pad', [sp_pair(rng, rng.choice([0, 4, 6]), rng.choice(['0', '#']))], odd))
     rng.shuffle(ds)
-    return '@counter-style %s { %s }' % (name, '; '.join(ds))
+    end = rng.choice(['', '', ';', '; '])
+    return '@counter-style %s { %s%s }' % (name, rng.choice(['; ', '; ', ';', ';\n']).join(ds), end)
 
 
 def gen_values(rng, n):
@@ -319,10 +667,15 @@ def run_style_cases(run, stream, tag, cases, base_entries, with_spec, per_file=N
     t0 = time.time()
     outs = common.run_impl('impl_c15', impl_fn, cases, limit=120, chunksize=2)
     t1 = time.time()
-    coq, owner = [], []          # one Coq case per chunk of <= CHUNK queries; owner = (case, offset)
+    coq, owner = [], []          # one Coq case per chunk of <= CHUNK queries; owner = (case, offset, what is judged)
+    nsheets, layer_bad = 0, []
     for c, (st, o) in zip(cases, outs):
         if st != 'ok':
-            if impl_fn == 'render_queries':
+            if impl_fn == 'render_queries' and st == 'exc' and o.get('site') and c.get('css'):
+                run.fail('a style sheet with @counter-style rules raised %s at %s while it was parsed' % (o['type'], o['site']),
+                         {'stream': c.get('stream', stream), 'css': c.get('css'), 'outcome': o, 'via': 'parse_sheet'},
+                         signature='crash:%s' % (o['site'],))
+            elif impl_fn == 'render_queries':
                 run.fail('render_queries harness call failed: %s' % (o,), {'stream': stream, 'case': c, 'outcome': o},
                          signature='c15:harness')
             else:
@@ -332,9 +685,32 @@ def run_style_cases(run, stream, tag, cases, base_entries, with_spec, per_file=N
                     signature='timeout' if st == 'timeout' else 'crash:%s' % (o['site'],))
             continue
         c = dict(c, user=o['user'], outs=o['outs'])
+        spec_here = with_spec and not c.get('nospec')
+        if c.get('css') and not c.get('raw'):
+            # the sheet as the grammar reads it: the specification is applied to THAT dictionary
+            c['intended'] = ref_sheet(c['css'])
+            c['layer_diff'] = layer_diff(c['intended'], o['user'])
+            nsheets += 1
+            if c['layer_diff']:
+                c['layer_sig'] = layer_signature(c['css'], o['user'])
+                if c['layer_sig'] is None:
+                    # not explained by the known deviations: what remains once these are granted is what is reported
+                    c['intended'] = ref_sheet(c['css'], QUIRKS)
+                    c['layer_diff'] = layer_diff(c['intended'], o['user'])
+                layer_bad.append(c)
         for k in range(0, len(c['queries']), CHUNK):
-            coq.append(caselit(o['user'], with_spec and not c.get('nospec'), c['queries'][k:k + CHUNK], o['outs'][k:k + CHUNK]))
-            owner.append((c, k))
+            qs, os_ = c['queries'][k:k + CHUNK], o['outs'][k:k + CHUNK]
+            if c.get('layer_diff'):
+                # two readings of the sheet: the model follows counters.py on the implementation's dictionary,
+                # the specification is judged on the reference's
+                coq.append(caselit(o['user'], False, qs, os_))
+                owner.append((c, k, 'model'))
+                if spec_here:
+                    coq.append(caselit(c['intended'], True, qs, os_))
+                    owner.append((c, k, 'spec'))
+            else:
+                coq.append(caselit(o['user'], spec_here, qs, os_))
+                owner.append((c, k, 'both'))
     pre = PRE_STYLE + 'Definition base : styles :=\n %s.\n' % styleslit(base_entries)
     try:
         res = common.eval_cases(tag, pre, CASE_T, coq, 'judge_case base', per_file=per_file or len(coq) // 16 + 1)
@@ -342,23 +718,36 @@ def run_style_cases(run, stream, tag, cases, base_entries, with_spec, per_file=N
         run.oblige('corr:' + stream, False, str(exc))
         return 0
     run.stream_info(stream, impl_s=round(t1 - t0, 1), coq_s=round(time.time() - t1, 1), coq_cases=len(coq))
-    labels = sorted({c.get('stream', stream) for c, _ in owner} | {stream})
+    labels = sorted({c.get('stream', stream) for c, _, _ in owner} | {stream})
     mism, nqs, sigs, unclassified = {l: [] for l in labels}, {l: 0 for l in labels}, {}, []
     base_names = [k for k, _ in base_entries]
-    for (c, k), r in zip(owner, res):
+    for (c, k, mode), r in zip(owner, res):
         label = c.get('stream', stream)
-        nqs[label] += min(CHUNK, len(c['queries']) - k)
+        if mode != 'spec':
+            nqs[label] += min(CHUNK, len(c['queries']) - k)
         mask, idx = r % 4, r // 4
+        if mode == 'spec':
+            mask &= 2
         if mask == 0:
             continue
         i0, i1 = idx // 64, idx % 64
         def data_of(i):
-            return {'stream': label, 'css': c.get('css'), 'raw': c.get('raw'), 'use_ua': c.get('use_ua', True),
-                    'user': c['user'], 'query': c['queries'][k + i - 1], 'impl': c['outs'][k + i - 1], 'via': impl_fn}
+            d = {'stream': label, 'css': c.get('css'), 'raw': c.get('raw'), 'use_ua': c.get('use_ua', True),
+                 'user': c['user'], 'query': c['queries'][k + i - 1], 'impl': c['outs'][k + i - 1], 'via': impl_fn}
+            if c.get('layer_diff'):
+                d['descriptor_layer'] = {'differences (style, descriptor, grammar, implementation)': c['layer_diff'][:6],
+                                         'reference': c['intended']}
+            return d
         if mask & 1 and i0:
             mism[label].append(data_of(i0))
         if mask & 2 and i1:
             data = data_of(i1)
+            if c.get('layer_diff'):
+                for sig in c.get('layer_sig') or []:
+                    sigs.setdefault(sig, data)
+                if not c.get('layer_sig'):
+                    unclassified.append(data)
+                continue
             sig = classify(c['user'], data['query'], data['impl'], base_names)
             if sig is None:
                 unclassified.append(data)
@@ -367,12 +756,29 @@ def run_style_cases(run, stream, tag, cases, base_entries, with_spec, per_file=N
     for l in labels:
         run.oblige('corr:%s(model = counters.py, strings compared)' % l, not mism[l],
                    'first disagreements: %s' % json.dumps(mism[l][:2])[:3000])
+    if nsheets:
+        # the descriptor layer itself, also where no queried value shows the difference
+        unexplained = [c for c in layer_bad if c.get('layer_sig') is None]
+        explained = {}
+        for c in layer_bad:
+            for sig in c.get('layer_sig') or []:
+                explained[sig] = explained.get(sig, 0) + 1
+        run.oblige('corr:%s(descriptor validators = reference reading of the @counter-style grammar)' % stream, not unexplained,
+                   'first sheets read differently: %s' % json.dumps([{'css': c['css'], 'differences': c['layer_diff'][:4]}
+                                                                     for c in unexplained[:2]])[:3000])
+        run.stream_info(stream, sheets_through_the_descriptor_layer=nsheets, sheets_read_differently=len(layer_bad),
+                        attributed_to_known_deviations=explained)
     # one unclassified failing input per stream label first, so that every stream that finds one reports it
     first_per_label = {}
     for d in unclassified:
         first_per_label.setdefault(d['stream'], d)
     for sig, data in list(sigs.items()) + [(None, d) for d in first_per_label.values()]:
         what = WHAT.get(sig, 'counter representation differs from CSS Counter Styles 3 (%s)' % via)
+        if data.get('descriptor_layer'):
+            dls = data['descriptor_layer']['differences (style, descriptor, grammar, implementation)']
+            dl = ([x for x in dls if x[0] == data['query'][1]] or dls)[0]
+            what = ('@counter-style descriptor read differently from its grammar (%s of %s: the grammar gives %s, the '
+                    'validators %s); %s' % (dl[1] or 'whole rule', dl[0], json.dumps(dl[2])[:120], json.dumps(dl[3])[:120], what))
         run.fail('%s: %s(%s) printed %r' % (what, data['query'][1], data['query'][2], data['impl']), data,
                  signature=sig)
     return nqs if len(labels) > 1 else nqs[stream]
@@ -388,42 +794,52 @@ PAD_SYMBOLS = ['0', '0', '*', ' ', 'xy', '']
 def gen_padneg_case(rng, nvalues):
     """one clean sheet (no extends, no odd names, fallback decimal): a base style of each chosen system with a
     two-part negative (prefix AND suffix, multi-character ones included) and ten copies that differ by consecutive
-    pad values, so that pad = natural length - 1, + 0, + 1 occurs for the values queried (-1, -10, range minimum...)."""
+    pad values, so that pad = natural length - 1, + 0, + 1 occurs for the values queried (-1, -10, range minimum...).
+    Every descriptor is written in one of the spellings its grammar allows (sp_*)."""
     system = rng.choice(['numeric', 'numeric', 'alphabetic', 'symbolic', 'additive', 'cyclic', 'fixed'])
     lo = rng.choice([-1000, -60, -12])
     ds = []
+    def symbols(l):
+        return sp_decl(rng, 'symbols', [[sp_symbol(rng, x) for x in l]])
+    def rng_lo():
+        return sp_decl(rng, 'range', [[str(lo), sp_int(rng, 5000)]])
+    def rng_inf():
+        return sp_decl(rng, 'range', [[sp_kw(rng, 'infinite'), sp_kw(rng, 'infinite')]])
     if system == 'numeric':
         base = rng.choice([2, 3, 10, 10])
         syms = [str(i) for i in range(base)] if rng.random() < 0.7 else [rng.choice(['a', 'b', 'xy', '〇']) for _ in range(base)]
-        ds.append('system: numeric; symbols: ' + ' '.join(q(x) for x in syms))
+        ds += [sp_decl(rng, 'system', [[sp_kw(rng, 'numeric')]]), symbols(syms)]
         if rng.random() < 0.5:
-            ds.append('range: %d 5000' % lo)
+            ds.append(rng_lo())
     elif system in ('alphabetic', 'symbolic'):
         syms = rng.choice([['a', 'b'], ['a', 'b', 'c'], ['x', 'yz'], ['*']]) if system == 'symbolic' else \
             rng.choice([['a', 'b'], ['a', 'b', 'c'], ['x', 'yz', 'w']])
-        ds.append('system: %s; symbols: %s' % (system, ' '.join(q(x) for x in syms)))
-        ds.append(rng.choice(['range: %d 5000' % lo, 'range: infinite infinite']))     # auto would exclude negatives
+        ds += [sp_decl(rng, 'system', [[sp_kw(rng, system)]]), symbols(syms)]
+        ds.append(rng.choice([rng_lo, rng_inf])())                                     # auto would exclude negatives
     elif system == 'additive':
-        ds.append('system: additive; additive-symbols: ' + rng.choice([
-            '10 "X", 9 "IX", 5 "V", 4 "IV", 1 "I"', '100 "C", 10 "X", 1 "I", 0 "Z"', '5 "V", 2 "II"', '7 "S", 1 "i"']))
-        ds.append(rng.choice(['range: %d 5000' % lo, 'range: infinite infinite']))
+        tuples = rng.choice([[(10, 'X'), (9, 'IX'), (5, 'V'), (4, 'IV'), (1, 'I')], [(100, 'C'), (10, 'X'), (1, 'I'), (0, 'Z')],
+                             [(5, 'V'), (2, 'II')], [(7, 'S'), (1, 'i')], [(1, 'I')]])
+        ds += [sp_decl(rng, 'system', [[sp_kw(rng, 'additive')]]),
+               sp_decl(rng, 'additive-symbols', [sp_pair(rng, w, x) for w, x in tuples])]
+        ds.append(rng.choice([rng_lo, rng_inf])())
     elif system == 'cyclic':
-        ds.append('system: cyclic; symbols: ' + ' '.join(q(x) for x in rng.choice([['a'], ['a', 'b', 'c'], ['xy', 'z']])))
+        ds += [sp_decl(rng, 'system', [[sp_kw(rng, 'cyclic')]]), symbols(rng.choice([['a'], ['a', 'b', 'c'], ['xy', 'z']]))]
     else:
-        ds.append('system: fixed %d; symbols: %s' % (rng.choice([-12, -3, 0, 1]),
-                                                    ' '.join(q(x) for x in ['a', 'b', 'cd', 'e', 'f', 'g', 'h', 'i'][:rng.choice([3, 8])])))
+        ds += [sp_decl(rng, 'system', [[sp_kw(rng, 'fixed'), sp_int(rng, rng.choice([-12, -3, 0, 1]))]]),
+               symbols(['a', 'b', 'cd', 'e', 'f', 'g', 'h', 'i'][:rng.choice([3, 8])])]
     pre = rng.choice(NEG_PREFIX)
     suf = rng.choice(NEG_SUFFIX[:5]) if rng.random() < 0.85 else ''
-    ds.append('negative: %s %s' % (q(pre), q(suf)))
+    ds.append(sp_decl(rng, 'negative', [sp_negative(rng, pre, suf)]))
     padsym = rng.choice(PAD_SYMBOLS)
     k0 = rng.choice([0, 1, 2, 3, 4])
     if rng.random() < 0.3:
-        ds.append('prefix: %s; suffix: %s' % (q(rng.choice(['', '[', 'No. '])), q(rng.choice(['', '] ', '.']))))
+        ds.append(sp_decl(rng, 'prefix', [[sp_symbol(rng, rng.choice(['', '[', 'No. ']))]]))
+        ds.append(sp_decl(rng, 'suffix', [[sp_symbol(rng, rng.choice(['', '] ', '.']))]]))
     rules, names = [], []
     for i in range(10):
         name = 'p%d' % i
         names.append(name)
-        rules.append('@counter-style %s { %s; pad: %d %s }' % (name, '; '.join(ds), k0 + i, q(padsym)))
+        rules.append('@counter-style %s { %s; %s }' % (name, '; '.join(ds), sp_decl(rng, 'pad', [sp_pair(rng, k0 + i, padsym)])))
     vals = [-1, -2, -9, -10, -11, -100, lo, lo + 1, lo - 1, 0, 1, 10]
     vals += [rng.randint(-120, -1) for _ in range(3)] + [rng.randint(-5000, 5000)]
     vals = sorted(set(vals))
@@ -1147,6 +1563,8 @@ def check(run):
                     'model/C15StyleSpec.v and the reference interpreter of model/C15Scope.v as renditions of CSS Counter '
                     'Styles 3 / CSS 2.1 12.4 + CSS Lists 3 (read from the specification text)',
                     'toc-renders monitor judged in Python',
+                    'harness/p_c15.py ref_sheet: the reference reading of @counter-style rules (grammar of every descriptor of '
+                    'CSS Counter Styles 3 section 3 over tinycss2 tokens), which gives the dictionary the specification is judged on',
                     'source tie (props C15_source_*): tools/py2coq.py (printer, option <branch>) and the interpreter '
                     'coq/base/Py.v with its primitives prim_apply (len, x[i], %, //, abs, join, reversed); '
                     'model/C15Builtins.v: Python strings as Coq strings (one character per ascii), a symbol as '
@@ -1194,7 +1612,15 @@ def check(run):
                     rule='1-5 @counter-style rules per case (all systems, extends chains and cycles, range lists, '
                          'negative, pad, prefix/suffix, fallback chains and cycles; every third case also odd names and '
                          'descriptor combinations), parsed by weasyprint.CSS into the CounterStyle dictionary; '
-                         '~30 values per style incl. range bounds +-1; symbols() / string styles')
+                         '~30 values per style incl. range bounds +-1; symbols() / string styles.  Every descriptor is written '
+                         'in the spellings its grammar allows: pad and each additive-symbols tuple in both orders, negative '
+                         'with one or two symbols, symbols as strings (both quotes, hexadecimal escapes) or identifiers, range '
+                         'lists of 1-3 ranges with infinite bounds, fixed with and without its integer, integers with a sign or '
+                         'a leading zero, keywords and descriptor names in other cases, white space / comments / nothing '
+                         'between components; in the odd cases also a token dropped, doubled, replaced or inserted, an empty '
+                         'value, !important, a descriptor given twice.  The specification is judged on the reference reading '
+                         'of the sheet (ref_sheet), the model on the dictionary the validators built; the two readings are '
+                         'also compared descriptor by descriptor')
     padneg_streams(run, rng, ua, thorough)
     scope_stream(run, rng, thorough)
     toc_stream(run, rng, thorough)
@@ -1247,6 +1673,10 @@ def replay(data):
         return 1 if m[0] else 0
     if d.get('stream') in ('ua-styles', 'random-counter-style', 'raw-dictionaries', 'pad-negative-direct',
                            'counter-style-renders'):
+        if d.get('via') == 'parse_sheet':
+            (st, o), = common.run_impl('impl_c15', 'render_queries', [{'css': d['css'], 'use_ua': True, 'queries': []}])
+            print('replay: parsing the sheet', 'succeeds' if st == 'ok' else 'raises %s' % (o,))
+            return 0 if st == 'ok' else 1
         case = {'css': d.get('css'), 'raw': d.get('raw'), 'use_ua': d.get('use_ua', True), 'queries': [d['query']]}
         fn = d.get('via') if d.get('via') in ('render_queries', 'render_counter_doc') else 'render_queries'
         (st, o), = common.run_impl('impl_c15', fn, [case])
@@ -1257,10 +1687,22 @@ def replay(data):
         if case['use_ua']:
             (_, base), = common.run_impl('impl_c15', 'ua_dump', [None])
         pre = PRE_STYLE + 'Definition base : styles :=\n %s.\n' % styleslit(base)
-        res = common.eval_cases('c15replay', pre, CASE_T,
-                                [caselit(o['user'], d.get('stream') != 'raw-dictionaries', case['queries'], o['outs'])],
-                                'judge_case base')
-        print('judge mask (1 = model differs, 2 = spec differs):', res[0] % 4)
-        return 1 if res[0] else 0
+        lits = [caselit(o['user'], d.get('stream') != 'raw-dictionaries', case['queries'], o['outs'])]
+        if case['css'] and not case['raw']:
+            intended = ref_sheet(case['css'])
+            diff = layer_diff(intended, o['user'])
+            if diff:
+                sig = layer_signature(case['css'], o['user'])
+                if sig is None:        # as in the streams: the known deviations of the validators are granted
+                    intended = ref_sheet(case['css'], QUIRKS)
+                    diff = layer_diff(intended, o['user'])
+                else:
+                    print('explained by the known deviations', sig)
+                print('the grammar reads the sheet differently (style, descriptor, grammar, implementation):', diff[:6])
+                lits.append(caselit(intended, True, case['queries'], o['outs']))
+        res = common.eval_cases('c15replay', pre, CASE_T, lits, 'judge_case base')
+        print('judge mask (1 = model differs, 2 = spec differs):', res[0] % 4,
+              '; on the reference reading of the sheet, spec differs: %s' % bool(res[1] % 4 & 2) if len(res) > 1 else '')
+        return 1 if res[0] % 4 or (len(res) > 1 and res[1] % 4 & 2) else 0
     print('nothing to replay for', d.get('stream'))
     return 0
